@@ -36,7 +36,7 @@ fn kind(e: &Value) -> &str {
 fn subs(e: &Value) -> Vec<&Value> {
     match kind(e) {
         "seq" | "choice" => e["es"].as_array().map(|a| a.iter().collect()).unwrap_or_default(),
-        "plus" | "opt" | "many" | "tag" => vec![&e["e"]],
+        "plus" | "opt" | "many" | "tag" | "tagmap" => vec![&e["e"]],
         _ => vec![],
     }
 }
@@ -54,8 +54,29 @@ fn build(e: &Value) -> NFA<Tag> {
             NFA::from(s.as_str())
         }
         "empty" => NFA::empty(),
-        "seq" => NFA::sequence(subs(e).into_iter().map(build).collect::<Vec<_>>()),
-        "choice" => NFA::choice(subs(e).into_iter().map(build).collect::<Vec<_>>()),
+        // two operands: through the operators `+` and `|`
+        "seq" | "choice" => {
+            let mut ns: Vec<NFA<Tag>> = subs(e).into_iter().map(build).collect();
+            if ns.len() == 2 {
+                let b = ns.pop().unwrap();
+                let a = ns.pop().unwrap();
+                if kind(e) == "seq" {
+                    a + b
+                } else {
+                    a | b
+                }
+            } else if kind(e) == "seq" {
+                NFA::sequence(ns)
+            } else {
+                NFA::choice(ns)
+            }
+        }
+        "digit" => NFA::digit(),
+        "number" => NFA::number(),
+        "tagmap" => {
+            let k = e["t"].as_u64().unwrap_or(0) as u32;
+            build(&e["e"]).tags_map(move |t| t + k)
+        }
         "plus" => build(&e["e"]).some(),
         "opt" => build(&e["e"]).optional(),
         "many" => build(&e["e"]).many(),
@@ -65,7 +86,16 @@ fn build(e: &Value) -> NFA<Tag> {
 }
 
 fn coq_regex(e: &Value) -> String {
+    coq_regex_shift(e, 0)
+}
+
+/// the expression with `shift` added to every tag (what tags_map does to the automaton)
+fn coq_regex_shift(e: &Value, shift: u64) -> String {
+    let coq_regex = |e: &Value| coq_regex_shift(e, shift);
     match kind(e) {
+        "digit" => format!("(Pred {})", cbytes(b"0123456789")),
+        "number" => format!("(Plus (Pred {}))", cbytes(b"0123456789")),
+        "tagmap" => coq_regex_shift(&e["e"], shift + e["t"].as_u64().unwrap_or(0)),
         "pred" => format!("(Pred {})", cbytes(&vbytes(&e["set"]))),
         "lit" => format!("(Lit {})", cbytes(&vbytes(&e["bs"]))),
         "empty" => "Empty".into(),
@@ -74,7 +104,7 @@ fn coq_regex(e: &Value) -> String {
         "plus" => format!("(Plus {})", coq_regex(&e["e"])),
         "opt" => format!("(Opt {})", coq_regex(&e["e"])),
         "many" => format!("(Many {})", coq_regex(&e["e"])),
-        "tag" => format!("(Tag {} {})", e["t"].as_u64().unwrap_or(0), coq_regex(&e["e"])),
+        "tag" => format!("(Tag {} {})", e["t"].as_u64().unwrap_or(0) + shift, coq_regex(&e["e"])),
         _ => "Nothing".into(),
     }
 }
@@ -83,6 +113,7 @@ fn alphabet(e: &Value, out: &mut BTreeSet<u8>) {
     match kind(e) {
         "pred" => out.extend(vbytes(&e["set"])),
         "lit" => out.extend(vbytes(&e["bs"])),
+        "digit" | "number" => out.extend(b"0123456789".iter().copied()),
         _ => {
             for s in subs(e) {
                 alphabet(s, out)
@@ -98,8 +129,8 @@ fn depth(e: &Value) -> usize {
 /// first / last position of the expression can be a loop
 fn loop_edge(e: &Value, first: bool) -> bool {
     match kind(e) {
-        "plus" | "many" => true,
-        "opt" | "tag" => loop_edge(&e["e"], first),
+        "plus" | "many" | "number" => true,
+        "opt" | "tag" | "tagmap" => loop_edge(&e["e"], first),
         "choice" => subs(e).into_iter().any(|s| loop_edge(s, first)),
         "seq" => {
             let ss = subs(e);
@@ -545,7 +576,13 @@ fn rand_set(rng: &mut Rng, al: &[u8]) -> Vec<u8> {
 
 fn rand_leaf(rng: &mut Rng, al: &[u8]) -> Value {
     match rng.below(12) {
-        0 => mk("empty"),
+        0 => {
+            if rng.chance(1, 3) {
+                mk(if rng.chance(1, 2) { "digit" } else { "number" })
+            } else {
+                mk("empty")
+            }
+        }
         1 => mk("nothing"),
         2 | 3 | 4 => pred(&rand_set(rng, al)),
         5 => {
@@ -725,7 +762,13 @@ pub fn generate(rng: &mut Rng, n: usize, tier: &str) -> Vec<Value> {
                         alts.push(tag(if rng.chance(1, 5) { 0 } else { i as u32 }, a));
                     }
                 }
-                nary("choice", alts)
+                let c = nary("choice", alts);
+                if rng.chance(1, 4) {
+                    // the decoder retags every matcher with tags_map
+                    json!({"k": "tagmap", "t": 1 + rng.below(3), "e": c})
+                } else {
+                    c
+                }
             }
             3 => rand_expr(rng, al, d, true), // tags anywhere
             4 | 5 => named_shape(rng, al, d, false),
